@@ -443,6 +443,7 @@ func (m *Model) Apply(ris []ResolvedIntent) StepEffect {
 	if len(ris) > 1 {
 		lab["multi-intent-tx"] = true
 	}
+	var orphanCand []string
 	for _, ri := range ris {
 		cur, existed := m.Intents[ri.Name]
 		if existed {
@@ -495,13 +496,18 @@ func (m *Model) Apply(ris []ResolvedIntent) StepEffect {
 				lab["orphan-intent"] = true
 				delete(m.Intents, ri.Name)
 				for p := range cur.Leaves {
-					if len(m.Definers(p)) == 0 {
-						m.Orphaned[p] = true
-					}
+					orphanCand = append(orphanCand, p)
 				}
 			} else {
 				lab["orphan-nonexistent"] = true
 			}
+		}
+	}
+	// a path whose definers are all gone after this step, one of them by
+	// orphan-delete, is unconstrained until it is defined again
+	for _, p := range orphanCand {
+		if len(m.Definers(p)) == 0 {
+			m.Orphaned[p] = true
 		}
 	}
 	after := m.Merge()
